@@ -72,7 +72,22 @@ impl PropertyName {
 impl ToInternedString for PropertyName {
     fn to_interned_string(&self, interner: &Interner) -> String {
         match self {
-            Self::Literal(key) => interner.resolve_expect(key.sym()).to_string(),
+            Self::Literal(key) => {
+                // A name that is not a plain identifier name (`'f g'`, `'5'`, `''`) has to stay a
+                // string literal, or the printed source would not parse back to the same name.
+                let name = interner.resolve_expect(key.sym());
+                let units = name.utf16();
+                let is_identifier_name = units.first().is_some_and(|&u| {
+                    u == u16::from(b'$') || u == u16::from(b'_') || u8::try_from(u).is_ok_and(|b| b.is_ascii_alphabetic())
+                }) && units.iter().all(|&u| {
+                    u == u16::from(b'$') || u == u16::from(b'_') || u8::try_from(u).is_ok_and(|b| b.is_ascii_alphanumeric())
+                });
+                if is_identifier_name {
+                    name.to_string()
+                } else {
+                    crate::expression::literal::quote_js_string(units)
+                }
+            }
             Self::Computed(key) => format!("[{}]", key.to_interned_string(interner)),
         }
     }
